@@ -19,6 +19,7 @@ import (
 	"github.com/indexsupply/shovel/jrpc2"
 	"github.com/indexsupply/shovel/shovel/config"
 	"github.com/indexsupply/shovel/shovel/glf"
+	"github.com/indexsupply/shovel/verifhook"
 	"github.com/indexsupply/shovel/wctx"
 	"github.com/indexsupply/shovel/wpg"
 
@@ -706,6 +707,8 @@ func (tm *Manager) Updates() uint64 {
 }
 
 func (tm *Manager) runTask(t *Task) {
+	verifhook.Event("runTask.start", t.srcName, t.destConfig.Name, t)
+	defer verifhook.Event("runTask.stop", t.srcName, t.destConfig.Name, t)
 	for {
 		select {
 		case <-tm.restart:
@@ -751,6 +754,8 @@ func (tm *Manager) Restart() error {
 // Acquires a lock to ensure only on routine is running.
 // Releases lock on return
 func (tm *Manager) Run(ec chan error) {
+	verifhook.Acquire(&tm.running, "manager-running", 0, 0)
+	defer verifhook.Release(&tm.running)
 	tm.running.Lock()
 	defer tm.running.Unlock()
 
